@@ -21,7 +21,7 @@ APIS = ["cfg.cnf", "cfg.nullaryremove", "cfg.unaryremove", "cfg.unarycycleremove
 
 
 def plan(tier, seed):
-    return common.add_m9_shard(common.plan_shards(tier, seed, n_quick=400, n_thorough=3000, budget_quick=30, budget_thorough=300), tier)
+    return common.add_m9_shard(common.plan_shards(tier, seed, n_quick=600, n_thorough=3000, budget_quick=30, budget_thorough=300), tier)
 
 
 def gates(tier):
